@@ -1017,6 +1017,7 @@ class CodeGenerator(StructuredCodeGenerator):
         self.emitters = [self.module_emitter]
 
         self.current_function = None
+        self.loop_nesting_depth = 0
         self.used = False
 
     # }}}
@@ -2122,8 +2123,10 @@ class CodeGenerator(StructuredCodeGenerator):
                     self.expr(ubound-1)),
                 code_generator=self)
         em.__enter__()
+        self.loop_nesting_depth += 1
 
     def emit_for_end(self, loop_var_name):
+        self.loop_nesting_depth -= 1
         self.emitter.__exit__(None, None, None)
 
     def emit_assign_expr(self, assignee_sym, assignee_subscript, expr):
@@ -2306,6 +2309,12 @@ class CodeGenerator(StructuredCodeGenerator):
         :attr:`current_function`. If so, emit code to deallocate that variable.
         """
         from dagrt.utils import is_state_variable
+
+        if self.loop_nesting_depth:
+            # The statement runs again in the next iteration of the loop, so
+            # the variables it uses must stay. (They are released at the exit
+            # label of the phase.)
+            return
 
         read_and_written = inst.get_read_variables() | inst.get_written_variables()
 
